@@ -20,6 +20,8 @@ pub struct CaseSrc {
     pub body: String,
     /// whether the case defines `run`
     pub runnable: bool,
+    /// expected to be rejected by rustc: such cases get shards of their own
+    pub negative: bool,
 }
 
 #[derive(Clone, Debug, Default)]
@@ -351,9 +353,23 @@ pub fn build_and_run(ctx: &Ctx, spec: &ProgSpec, cases: &[CaseSrc]) -> Result<Bu
     }
     let mut results: Vec<CaseResult> = vec![CaseResult::default(); n];
     let mut members: Vec<Vec<usize>> = vec![vec![]; nshards];
-    for i in 0..n {
-        members[i % nshards].push(i);
+    let negs: Vec<usize> = (0..n).filter(|i| cases[*i].negative).collect();
+    let nneg = if negs.is_empty() { 0 } else { (negs.len() / 60).clamp(1, 8) };
+    for _ in 0..nneg {
+        members.push(vec![]);
     }
+    let mut pi = 0;
+    for i in 0..n {
+        if cases[i].negative {
+            continue;
+        }
+        members[pi % nshards].push(i);
+        pi += 1;
+    }
+    for (j, i) in negs.iter().enumerate() {
+        members[nshards + j % nneg].push(*i);
+    }
+    let nshards = members.len();
     let mut infra = vec![];
     let mut builds = 0;
     // shards that still need a (re)build
